@@ -101,6 +101,9 @@ class C03Q(SchedProp):
         'CylcModel.C03Q.stall_flag_only_if_stalled',
         'CylcModel.C03Q.no_stall_with_releasable',
         'CylcModel.C03Q.no_auto_shutdown_with_releasable',
+        'CylcModel.C03Q.shutdown_sound',
+        'CylcModel.C03Q.stall_sound',
+        'CylcModel.C03Q.main_loop_response',
     ]
     statement_note = 'see evidence'      # filled in below
     technique = ('lemmas on the queue release functions of a Lean scheduler model with limited queues (Sched3Q) + '
@@ -121,7 +124,7 @@ class C03Q(SchedProp):
             'five hand-written histories run first (a failed / submit-failed / incomplete-succeeded member must free its '
             'slot); every automatic shutdown, every rise of the stall flag and every main loop of every run is judged; '
             'non-trivial = a limited queue held back a ready task over a main loop; classes = (kind, ending, '
-            'finished-member-in-limited-queue, stall-event, launch count)')
+            'finished-task-in-pool-while-a-limited-queue-holds-tasks, stall-event, launch count)')
     kinds = ('qf', 'qa', 'qf', 'qc', 'cmdqf', 'qf', 'cmdq', 'qa')
     n_quick = 48
     n_thorough = 600
@@ -175,7 +178,6 @@ class C03Q(SchedProp):
         if isinstance(obs, dict):
             return 'crash'
         ops = inp.get('ops') or []
-        active = ('preparing', 'submitted', 'running')
         final = ('failed', 'submit-failed', 'succeeded', 'expired')
         bound = fin = False
         for k in range(1, len(obs)):
@@ -188,7 +190,7 @@ class C03Q(SchedProp):
                 stay = [x for x in qa[2] if x in qb[2] and tuple(x) not in held]
                 if qb[1] > 0 and stay:
                     bound = True          # a ready, not held task stayed queued over a main loop
-        # a finished member sat in the pool while another member of its limited queue was queued
+        # a finished task sat in the pool while a limited queue held queued tasks
         for o in obs:
             fin_names = {t['n'] for t in o['pool'] if t['st'] in final}
             for q in o.get('qs', []):
@@ -200,40 +202,47 @@ class C03Q(SchedProp):
         last = obs[-1]
         tags.append('stop' if last['stop'] else ('stalled' if last['stalled'] else 'cut'))
         if fin:
-            tags.append('finished-member')
+            tags.append('finished-while-queued')
         if any(o.get('stall_at') for o in obs):
             tags.append('stall-event')
         n = sum(len(o['launch']) for o in obs)
         tags.append('launch<5' if n < 5 else 'launch<15' if n < 15 else 'launch>=15')
-        del active
         return '/'.join(tags)
 
 
 C03Q.statement_note = (
-    'proof over the Sched3Q model (scheduler core + holds / stop / pause / restart + limited internal queues), for every '
-    'queue table, every state (reachable or not) and every counter: (1) active_count_spec - the number '
-    'count_active_tasks / release_queued_tasks charge to a queue is exactly the number of pooled members that are '
-    'preparing, submitted, running or released-awaiting-job-preparation; finished_never_counts - a proxy that is waiting '
-    '(not yet released) or finished (failed, submit-failed, succeeded, expired) is never counted, so finished-but-'
-    'incomplete members retained in the pool never block their queue; no_slot_taken_without_job - if no member is '
-    'preparing / submitted / running / awaiting preparation the count is 0; (2) progress: queue_progress - the release '
-    'loop of one queue leaves a task that is not held in the deque only if limit > 0 and counter + released >= limit; '
-    'release_progress - the same for release_queued_tasks over all (independent) queues of a state satisfying the run '
-    'invariants of C05S (queue_invariants_run): every queued task that is not held is released, or its queue is at its '
-    'limit counting the active members and what this very release step released from it; release_some_when_free_slot - a '
-    'queue with a free slot and a queued task that is not held releases at least one task; released_is_launched - every '
-    'released waiting proxy is launched under its next submit number by the same release step (release_tasks_to_run); '
-    'release_step_response - together: a queued, waiting, not held proxy is launched by the release step or its queue '
-    'is full; (3) is_stalled_iff - TaskPool.is_stalled is exactly: no member preparing / submitted / running, no '
-    'released waiting proxy with satisfied prerequisites, and some proxy incomplete or partially satisfied within the '
-    'stop point; stall_flag_only_if_stalled - check_workflow_stalled raises the flag only then (and never while paused); '
-    'no_stall_with_releasable / no_auto_shutdown_with_releasable - neither the stall decision nor the automatic '
-    'shutdown decision is taken in a state in which some queue holds a ready (waiting, released from the runahead pool, '
-    'prerequisites satisfied) task, whatever the queue limits. PARTIAL with respect to the property text: the '
-    'one-iteration response bound is proved for the release step on the state it works on (after compute_runahead / '
-    'release_runahead / queue sweep), not threaded through the whole main loop from the observation at its start (that '
-    'needs the invariant "queued flag = member of its deque", which is false after an unsolicited job message, finding '
-    'unsolicited-message-activation of C05S); the judge checks the whole-loop statement on every real trace; as in '
-    'C03, a freshly spawned runahead-flagged ready task is ignored by is_stalled (finding stall-runahead-pending)')
+    'proof over the Sched3Q model (scheduler core + holds / stop modes / stop point / stop task / pause / clean restart + '
+    'limited internal queues), for every instance graph, every queue table, every state (reachable or not) and every '
+    'operation: (a) shutdown_sound - a scheduler that was not asked to stop (no stop mode, no stop task) raises the stop '
+    'flag only in a main loop, with reason AUTOMATIC, in the pool the decision was taken on (after compute_runahead / '
+    'release_runahead_tasks), and that pool has no preparing / submitted / running proxy, no released waiting proxy, no '
+    'finished-incomplete proxy and no proxy within the stop point waiting on an output within the stop point - in '
+    'particular no queue holds a ready task (no_auto_shutdown_with_releasable for check_auto_shutdown itself); (b) '
+    'stall_sound - the stall flag is raised only by a main loop of a scheduler that is not paused, and only when '
+    'TaskPool.is_stalled holds of the pool at the decision point or of the pool the loop ends in; is_stalled_iff - that '
+    'is exactly: nothing preparing / submitted / running (so every queue has all its slots free), no released waiting '
+    'proxy with satisfied prerequisites (so no queue holds a ready task: no_stall_with_releasable), and some proxy '
+    'incomplete or partially satisfied within the stop point; stall_flag_only_if_stalled for check_workflow_stalled; '
+    '(c) bounded response with queue limits: active_count_spec - the number count_active_tasks / release_queued_tasks '
+    'charge to a queue is exactly the number of pooled members that are preparing, submitted, running or '
+    'released-awaiting-job-preparation; finished_never_counts / no_slot_taken_without_job - a waiting or finished '
+    '(failed, submit-failed, succeeded, expired) proxy is never counted, the count equals the count in the pool without '
+    'its finished proxies: finished-but-incomplete members retained in the pool never block their queue; queue_progress - '
+    'the release loop of one queue leaves a task that is not held in the deque only if limit > 0 and counter + released '
+    '>= limit; release_progress - the same for release_queued_tasks over all (independent) queues of a state satisfying '
+    'the run invariants of C05S (queue_invariants_run); release_some_when_free_slot - a queue with a free slot and a '
+    'queued task that is not held releases at least one task; released_is_launched - every released waiting proxy is '
+    'launched under its next submit number by the same release step; release_step_response - together; '
+    'main_loop_response - over a WHOLE main loop of a scheduler that is neither paused nor stopping: every proxy that '
+    'sits in a queue after this loop\'s runahead release and ready-sweep, is waiting and not held is in the launch log '
+    'of this very loop under its next submit number, or its queue is at its limit counting the members preparing / '
+    'submitted / running / awaiting preparation plus what this loop released from it. PARTIAL with respect to the '
+    'property text: main_loop_response starts from "sits in a queue after the sweep"; that a task which is ready at '
+    'the START of the loop sits in its queue after the sweep is not proved (it needs the invariant "queued flag = member '
+    'of the deque of its queue", which an unsolicited job message breaks: finding unsolicited-message-activation of '
+    'C05S) - the judge checks the start-of-loop statement on every real trace; independence of the queues is a '
+    'hypothesis (component-level C05, checked on every run by the C05S judge); xtriggers other than zero-delay retry '
+    'timers are not in the model; as in C03, a freshly spawned runahead-flagged ready task is ignored by is_stalled '
+    '(finding stall-runahead-pending, witness theorem in Props/C03.lean)')
 
 PROP = C03Q()
